@@ -72,6 +72,8 @@ type Exec struct {
 	usedContracts   map[string]bool
 	metaClauses     map[string]bool
 	probeCount      map[string]int
+	probeCands      map[string][]*Obligation
+	probePrio       map[string]int
 	assignAll       bool
 	qcount          int
 	unsupPaths      []string
